@@ -109,7 +109,7 @@ def chkCon (c : Nat) (v : Val) : Bool :=
 
 def handle (j : Json) : Json :=
   let cfg : Cfg := match obj? j "cfg" with
-    | some c => ⟨bool! (fld c "uniqueKeys"), bool! (fld c "resolveUnion"), bool! (fld c "inheritRefs")⟩
+    | some c => ⟨bool! (fld c "uniqueKeys"), bool! (fld c "resolveUnion"), bool! (fld c "inheritRefs"), bool! (fld c "abortKeeps")⟩
     | none => Cfg.fixed
   let fuel := match optNat (fld j "fuel") with | some n => n | none => 60
   let ops := (arr! (fld j "ops")).map mkOp
